@@ -57,6 +57,22 @@ def function_ast(fn):
     return node
 
 
+class _RaiseLog(list):
+    """list of (pc, exception class); remembers the source site of every entry for diagnostics"""
+
+    def __init__(self, interp):
+        super().__init__()
+        self.interp = interp
+        self.sites = {}
+
+    def append(self, item):
+        self.sites[id(item[0])] = self.interp.site
+        super().append(item)
+
+    def site_of(self, item):
+        return self.sites.get(id(item[0]), "?")
+
+
 class Closure:
     def __init__(self, node, env, glb):
         self.node, self.env, self.glb = node, env, glb
@@ -73,7 +89,8 @@ class Frame:
 class Interp(Arith):
     def __init__(self, mode="bv", width=256, fmode="real", unroll=6, repo_prefix="flexstack"):
         super().__init__(mode, width, fmode)
-        self.raises = []        # (pc, exception class)
+        self.raises = _RaiseLog(self)        # (pc, exception class)
+        self.site = "?"          # qualname:line of the statement being evaluated (diagnostics)
         self.calls = set()      # qualnames of repository functions that were encoded
         self.events = []        # (pc, kind, payload) appended by stubs
         self.stubs = {}         # function object / (class, name) / id(obj) -> callable
@@ -113,16 +130,18 @@ class Interp(Arith):
         return Obj(cls, dict(fields))
 
     def lift_container(self, v):
-        """concrete mutable container -> guarded container (done on first access through a heap field)"""
+        """concrete mutable container -> guarded container, recursively (done on first access through a heap field)"""
         import collections
         if isinstance(v, collections.deque):
-            return SList([(TRUE, x) for x in v], maxlen=v.maxlen)
+            return SList([(TRUE, self.lift_container(x)) for x in v], maxlen=v.maxlen)
         if isinstance(v, list):
-            return SList([(TRUE, x) for x in v])
+            return SList([(TRUE, self.lift_container(x)) for x in v])
         if isinstance(v, dict):
-            return SDict([(TRUE, k, x, False) for k, x in v.items()])
-        if isinstance(v, (set, frozenset)) and not isinstance(v, frozenset):
+            return SDict([(TRUE, k, self.lift_container(x), False) for k, x in v.items()])
+        if isinstance(v, set):
             return SDict([(TRUE, k, True, False) for k in v], is_set=True)
+        if isinstance(v, tuple) and any(isinstance(x, (dict, list, set, tuple)) for x in v):
+            return tuple(self.lift_container(x) for x in v)
         return v
 
     # ------------------------------------------------------------------ calling repository code
@@ -242,6 +261,7 @@ class Interp(Arith):
         m = getattr(self, "st_" + type(st).__name__, None)
         if m is None:
             raise Unsupported(f"statement {type(st).__name__} at {fr.qualname}:{st.lineno}")
+        self.site = f"{fr.qualname}:{getattr(st, 'lineno', '?')}"
         try:
             return m(st, fr, pc)
         except Unsupported as e:
